@@ -614,6 +614,77 @@ func (r *Run) RunShard(name string, memLimitMB int, extraEnv []string) {
 	}
 }
 
+// RunRacePass executes /verif/.work/bin/race <prop> (built with -race from the current tree
+// by the check script) and turns every distinct data-race report into a violation keyed by
+// the two access sites. Race reports are exempt from the re-execution rule.
+func (r *Run) RunRacePass(prop string) {
+	logBase := filepath.Join(Root, ".work/racelog", prop)
+	os.MkdirAll(filepath.Dir(logBase), 0o755)
+	old, _ := filepath.Glob(logBase + ".*")
+	for _, f := range old {
+		os.Remove(f)
+	}
+	cmd := exec.Command(filepath.Join(Root, ".work/bin/race"), prop)
+	cmd.Env = append(os.Environ(), "GORACE=halt_on_error=0 log_path="+logBase+" history_size=2")
+	out, err := cmd.CombinedOutput()
+	runs := 0
+	for _, l := range strings.Split(string(out), "\n") {
+		if strings.HasPrefix(l, "RACE-PASS-DONE") {
+			fmt.Sscanf(l[strings.Index(l, "runs="):], "runs=%d", &runs)
+		}
+		if strings.HasPrefix(l, "RACE-PASS-PANIC") {
+			r.FailIn("race", "race-pass/panic/"+prop, l, "free-running pass: "+l, nil)
+		}
+	}
+	if runs == 0 {
+		r.Harness(fmt.Sprintf("race pass for %s did not complete: %v %s", prop, err, tailStr(string(out), 800)))
+	}
+	r.Set("race_pass_runs", runs)
+	r.Tag("race-pass/" + prop)
+	logs, _ := filepath.Glob(logBase + ".*")
+	seen := map[string]bool{}
+	for _, f := range logs {
+		b, _ := os.ReadFile(f)
+		for _, rep := range strings.Split(string(b), "WARNING: DATA RACE")[1:] {
+			// key: the first library frame of each of the two accesses
+			var sites []string
+			for _, blk := range strings.Split(rep, "\n\n") {
+				if !(strings.Contains(blk, "Write at") || strings.Contains(blk, "Read at") || strings.Contains(blk, "Previous write") || strings.Contains(blk, "Previous read")) {
+					continue
+				}
+				var fr []string
+				for _, ln := range strings.Split(blk, "\n") {
+					ln = strings.TrimSpace(ln)
+					if strings.HasPrefix(ln, "github.com/consensys/gnark-crypto/") && !strings.Contains(ln, "verifsched") {
+						fn := strings.TrimSuffix(strings.TrimPrefix(ln, "github.com/consensys/gnark-crypto/"), "()")
+						fr = append(fr, fn)
+						if len(fr) == 2 {
+							break
+						}
+					}
+				}
+				if len(fr) > 0 {
+					sites = append(sites, strings.Join(fr, "<"))
+				}
+			}
+			sort.Strings(sites)
+			key := "race/" + strings.Join(sites, "~")
+			if seen[key] {
+				continue
+			}
+			seen[key] = true
+			r.FailIn("race", key, key, "data race reported by the free-running -race pass: "+tailStr(rep, 1200), nil)
+		}
+	}
+}
+
+func tailStr(s string, n int) string {
+	if len(s) > n {
+		return s[:n]
+	}
+	return s
+}
+
 // Finish re-executes unknown violations for determinism, writes evidence and exits.
 func (r *Run) Finish() {
 	if r.shard != "" {
